@@ -646,6 +646,11 @@ def _indent(text, n):
 def _embedding_files():
     """name -> (source lines, example key, start lines of the copies)."""
     files = {}
+    for wk, (src, _rule, _shift) in WHOLE_FILE_EXAMPLES.items():
+        body = src.rstrip("\n").split("\n")
+        files[f"whole-{wk}__module.py"] = (body, "whole-" + wk, [1])
+        for pk, pre in LEADING_COMMENT_PREFIXES.items():
+            files[f"whole-{wk}__after-{pk}.py"] = (pre + body, "whole-" + wk, [len(pre) + 1])
     for ek, ex in EMBED_EXAMPLES.items():
         base = PREAMBLE + _indent(ex, 0)
         files[f"{ek}__module.py"] = (base, ek, [len(PREAMBLE) + 1])
@@ -672,6 +677,33 @@ def _embedding_files():
             lines += _indent(_re_rename(ex, k), ind) + ["", ""]
         files[f"{ek}__four-occurrences-renamed.py"] = (lines, ek, starts)
     return files
+
+
+# whole-file examples (the construct is the file's header) x "after arbitrary unrelated comments": leading comment lines
+WHOLE_FILE_EXAMPLES = {   # name -> (source, rule id prefix, findings shift with the prefix?)
+    "lazy-ignores": ('''"""
+Purpose: demo module with one justified and one unjustified suppression
+
+Suppressions:
+    - F401: re-exported for the public API surface
+    - W0611: listed here but never used in the code below
+"""
+import os  # noqa: F401
+import sys  # noqa: E501
+''', "lazy-ignores", True),
+    "file-header": ('''"""
+Purpose: demo module whose header lacks the other mandatory fields
+"""
+VALUE = 1
+''', "file-header", False),   # a file-level rule: reports line 1 by convention, wherever the docstring starts
+}
+LEADING_COMMENT_PREFIXES = {
+    "shebang": ["#!/usr/bin/env python3"],
+    "coding-line": ["# -*- coding: utf-8 -*-"],
+    "licence-block": ["# Copyright (c) 2024 Example Corp.", "# Licensed under the MIT License.", ""],
+    "blank-lines": ["", ""],
+    "shebang-and-licence": ["#!/usr/bin/env python3", "# Copyright (c) 2024 Example Corp.", "#", "# All rights reserved.", ""],
+}
 
 
 RENAMABLE = ("result", "item", "line", "value", "count", "User", "TokenHasher", "process", "report", "token", "tokens", "data",
@@ -714,6 +746,24 @@ def c19_embedding_bounded(ctx):
         return [ob("driver", "unknown", "driver failed: " + (p.stderr or p.stdout)[-400:])]
     res = {k: [tuple(x) for x in v] for k, v in _json.loads(line[0][len("RESULT"):]).items()}
     obs = []
+    for wk, (_src, rule_prefix, shifts) in WHOLE_FILE_EXAMPLES.items():
+        ek = "whole-" + wk
+        base = sorted((r, ln) for r, ln in res.get(f"{ek}__module.py", []) if r.startswith(rule_prefix))
+        if not base:
+            obs.append(ob(f"{ek}/module", "refuted", "the example file yields no finding of its rule"))
+            continue
+        obs.append(ob(f"{ek}/module", "discharged", f"reported: {base}"))
+        for name, (_lines, k2, starts) in sorted(files.items()):
+            if k2 != ek or name.endswith("__module.py"):
+                continue
+            d = (starts[0] - 1) if shifts else 0
+            # findings at line 1 are file-level by the tool's convention (C12: "file-level rules use line 1"; lazy-ignores
+            # reports orphaned header entries there) and stay at line 1; every other finding moves with the text
+            expected = sorted((r, ln + d if ln > 1 else 1) for r, ln in base)
+            actual = sorted((r, ln) for r, ln in res.get(name, []) if r.startswith(rule_prefix))
+            obs.append(ob(f"{ek}/{name[len(ek) + 2:-3]}", "discharged" if actual == expected else "refuted",
+                          "same findings as without the leading comment lines (shifted with the text)" if actual == expected
+                          else f"expected {expected}, the rule reports {actual}"))
     for ek in EMBED_EXAMPLES:
         base_name = f"{ek}__module.py"
         base_start = files[base_name][2][0]
